@@ -181,6 +181,11 @@ def path_task(payload, decisions):
     """worker entry: run one path of payload['unit'] and apply payload['analyses']"""
     unit = payload["unit"]
     prop = payload["prop"]
+    if "frame" in payload.get("analyses", ()):
+        from pyvc import frame
+
+        _unit(unit)
+        frame.shared_objects()  # snapshot of the pre-existing objects, before anything is interpreted
     sub = Session(prop, tier=payload.get("tier", "quick"), seed=payload.get("seed", 0))
     res, p = run_path(unit, decisions, truncation=payload.get("truncation", False))
     final = list(p.decisions)
